@@ -23,6 +23,8 @@ result = [per op: {outcome, trace, nsver, diff, nsend}]
  case["struct_text"]: mc.boot(sark_struct=<that text>) first (boot socket / clock faked); case["advance_seq"]: the initial
    connection's sequence generator is advanced that many steps; case["ctx_defs"] / case["enter"]: kept Context objects
    mc(**def) and, per op, the ones entered (outermost first) around a call that names no x, y, p.
+ case["first_sver"] = p: mc.get_software_version(x, y, p) is the controller's first call; case["core_buffers"] = {p: size}:
+   cores whose kernel advertises (and enforces) another buffer size; case["lean"]: reply payloads left out of the trace.
  case["discover"]: mc.discover_connections() runs first (case["eth"] = [[x, y, k], ...] Ethernet chips with IP
    10.11.12.k; the boot chip's memory holds p2p_dims and the P2P table); the fault plan starts after it.
 """
@@ -238,6 +240,7 @@ def boot_with(mc, text):
 
 def run_case(c):
     machine = sim.SimMachine(c["seed"], c.get("over", []), c["buffer"], c.get("dims", [8, 8]), eth=c.get("eth", ()))
+    machine.core_buffers = dict((int(k), v) for k, v in (c.get("core_buffers") or {}).items())
     plan = c.get("plan") or {}
     net = BoardNet(MachineFaultSim(plan, responder=machine.responder, exact=c.get("exact", ()),
                                      max_selects=c.get("max_selects", 200000)))
@@ -272,6 +275,10 @@ def run_case(c):
                 return [dict(outcome=["exc", type(e).__name__, "boot: " + str(e)[:120]], trace=[], max_tx=0,
                              discovered=None, nsock=len(net.sockets), nsver=0, diff=machine.mem.diff(), nsend=net.ntx,
                              ports=[], fills=[], refused=[])]
+        if c.get("first_sver") is not None:
+            # the controller's very first query goes to an application core (its kernel may advertise another buffer)
+            fx, fy = c["chips"][0] if c.get("chips") else c["chip"]
+            mc.get_software_version(fx, fy, c["first_sver"])
         for _ in range(c.get("advance_seq", 0)):
             next(mc.connections[None].seq)        # a long-lived connection: its sequence counter is about to wrap
         ctxs = [mc(**d) for d in c.get("ctx_defs", [])]         # Context objects kept and entered again and again
@@ -296,7 +303,9 @@ def run_case(c):
             except Exception as e:                               # noqa
                 outcome = ["exc", type(e).__name__, str(e)[:160]]
             entries = machine.log[lo:]
-            trace = [[e["x"], e["y"], e["p"], e["cmd"]] + e["args"] + [e["data"], e["rc"], e["reply"]]
+            lean = bool(c.get("lean"))        # a burst of tens of thousands of commands: payloads left out of the report
+            trace = [[e["x"], e["y"], e["p"], e["cmd"]] + e["args"] +
+                     ["" if lean and e["cmd"] == sim.CMD_READ else e["data"], e["rc"], "" if lean else e["reply"]]
                      for e in entries if e["cmd"] not in sim.CONTROL]
             sends = {}
             for e in net.log[llo:]:
@@ -317,4 +326,4 @@ def run_case(c):
 
 if __name__ == "__main__":
     import implutil
-    implutil.run_cases(run_case, per_case_s=20)
+    implutil.run_cases(run_case, per_case_s=150)
